@@ -2,6 +2,7 @@
 import datetime, json, re
 from fractions import Fraction
 import vcommon as vc
+import unquote_cases as UQ
 import check_c10 as N10
 
 
@@ -160,6 +161,22 @@ def const_cases(rng):
     return [Case(ex, ["const: %s" % flag], probes, (lambda tok, ex=ex: tok == ex) if flag == "true" else (lambda tok: True), "const")]
 
 
+def combo_cases(rng):
+    """two rule families on one node: enum with look-alike values of several kinds + const: the value must be in the list AND equal the example"""
+    items = ['"a"', "1", '"1"', "true", '"true"', "null", '"null"', "2.5", '"2.5"', '""']
+    base = rng.choice(["1", '"1"', "true", '"true"', "null", '"null"', "2.5", '"2.5"'])
+    twin = base[1:-1] if base.startswith('"') else '"%s"' % base
+    chosen = [base, twin] + rng.sample([x for x in items if x not in (base, twin)], rng.randint(0, 2))
+    rng.shuffle(chosen)
+    flag = rng.choice(["true", "true", "false"])
+    rules = ["enum: [%s]" % ", ".join(chosen), "const: %s" % flag]
+    rng.shuffle(rules)
+
+    def sem(tok, chosen=chosen, base=base, flag=flag):
+        return tok in chosen and (flag == "false" or tok == base)
+    return [Case(base, rules, items + ['"b"', "2"], sem, "enum")]
+
+
 def format_cases(rng):
     out = []
     years = ["0000", "0001", "1899", "1900", "2000", "2023", "2024", "2100", "9999"]
@@ -194,7 +211,7 @@ def run(ctx):
     cases = []
     n = 200 if quick else 6000
     for _ in range(n):
-        for gen in (num_cases, precision_cases, length_cases, regex_cases, enum_cases, const_cases, format_cases):
+        for gen in (num_cases, precision_cases, length_cases, regex_cases, enum_cases, const_cases, format_cases, combo_cases):
             cases += gen(rng)
     lines, meta = [], []
     for c in cases:
@@ -253,6 +270,7 @@ def run(ctx):
             want = date_ok(s) if l[0] == "d" else uuid_ok(s)
             if (m == "T") != want:
                 ctx.report("Coq %s model on %r says %s, oracle says %s" % ("date" if l[0] == "d" else "uuid", s, m, want), "c02fmt:" + l, {"line": l, "model": m}, no_input=True)
+    UQ.check_unquote(ctx, st, quick, "c02")
     ctx.extra["schemas"] = len(lines)
     ctx.extra["by_rule"] = {k: sum(1 for c, _, _, _ in meta if c.label == k) for k in sorted(set(c.label for c, _, _, _ in meta))}
     ctx.samples.append({"schema": meta[0][2], "probes": meta[0][3][:8]})
